@@ -247,7 +247,11 @@ func sepWidth(s string) (rune, int) {
 	return '|', 1
 }
 
-func parseTraceLine(line string) (*traceLine, error) {
+func parseTraceLine(line string) (*traceLine, error) { return parseTraceLineOpt(line, true) }
+
+// parseTraceLineOpt: with needRegs false the register and flag fields are optional (cpualt's
+// string-returning Disassemble shows only location, bytes, mnemonic and operand).
+func parseTraceLineOpt(line string, needRegs bool) (*traceLine, error) {
 	t := &traceLine{}
 	loc := reLoc.FindStringSubmatchIndex(line)
 	if loc == nil {
@@ -283,12 +287,12 @@ func parseTraceLine(line string) (*traceLine, error) {
 	t.Operand = strings.ToLower(strings.Join(strings.Fields(opnd), ""))
 	if m := reRegs.FindStringSubmatch(line); m != nil {
 		t.A, t.X, t.Y = strings.ToLower(m[1]), strings.ToLower(m[2]), strings.ToLower(m[3])
-	} else {
+	} else if needRegs {
 		return nil, fmt.Errorf("no A= X= Y= fields in %q", line)
 	}
 	if m := reFlags.FindStringSubmatch(line); m != nil {
 		t.Flags = m[1]
-	} else {
+	} else if needRegs {
 		return nil, fmt.Errorf("no flag letters in %q", line)
 	}
 	return t, nil
@@ -352,6 +356,9 @@ func checkTraceLine(t *traceLine, r Regs, ins []byte) (oracle, msg string) {
 		if !ok {
 			return "trace_operand", fmt.Sprintf("opcode %02x (%s) bytes % x: operand rendering %q is none of %q", op, decodeTable[op].Mn[0], full, t.Operand, forms)
 		}
+	}
+	if t.A == "" && t.Flags == "" {
+		return "", "" // a rendering without register fields
 	}
 	// registers: the width-appropriate copy
 	chk := func(name, field string, is8 bool, v16 uint16, lo byte, hi byte) (string, string) {
